@@ -19,7 +19,7 @@ SPEC_PART = dict(
            "value (set >= 8 coupons, Hll4 with a register at cur_min: every image a writer emits) is a well-formed source "
            "(c14_hll_ok_is_source), hence can be updated (c11_hll_source_updates) and merged (c03 / c17) without reaching a panic "
            "site -- proved; serialize has no panic site; for QUERIES there is NO theorem (composite estimator not modelled) -- "
-           "exercised only; non-canonical accepted images are exercised only. Eleven reader / writer defects were found and repaired "
+           "exercised only; non-canonical accepted images are exercised only. Several reader / writer defects (8 fixed findings in known_findings.json, 10 fix: commits) were found and repaired "
            "on the way (D1, D4, D13, array image validation, allocation before length check, COMPACT flag of the writer, NaN / "
            "infinite / negative estimator fields [08d9c35: estimate() of an accepted image failed a debug assertion], list / set "
            "count consistency [2f7e0d8, b0014c6: an accepted list image dropped every later update]: known_findings.d). Tie: structure-aware "
